@@ -31,6 +31,19 @@ def gen_episode(rng, length, strategy, toggles):
     return ep
 
 
+def targeted(strategy):
+    """sequences that need a particular order: the half-open trial itself is hit by a fault; a
+    passively ejected backend must come back without active probes"""
+    eps = []
+    for trial_fault in ("short", "reset", "s500", "hang", "cad"):
+        eps.append(["ft new %s 1 0 0 0" % strategy, "ft req s500", "ft req s500", "ft req s500", "ft wait 1150",
+                    "ft req " + trial_fault, "ft probe"])
+    eps.append(["ft new %s 0 0 2 0" % strategy, "ft req s500", "ft req s500", "ft req s500", "ft req ok", "ft probe"])
+    eps.append(["ft new %s 1 0 2 0" % strategy, "ft req s500", "ft req s500", "ft req s500", "ft wait 1150", "ft req short",
+                "ft wait 1150", "ft req s500", "ft probe"])
+    return eps
+
+
 def gen_conc(rng, strategy, toggles):
     ep = ["ft new %s %d %d %d %d" % ((strategy,) + toggles)]
     faults = [rng.choice([f for f in FAULTS if f != "hang"]) for _ in range(rng.randint(1, 3))]
@@ -52,6 +65,8 @@ def oracle(ep, outs):
     goroutines = []
     for line, o in zip(lines, outs):
         w = line.split()
+        if w[1] == "wait":
+            continue
         if w[1] == "req":
             canon, _, detail = o.partition(" || ")
             d = fields(detail)
@@ -113,13 +128,15 @@ def check(ctx):
     binary = build(ctx)
     thorough = ctx.thorough()
     eps = []
-    toggles_all = [(0, 0, 0, 0), (1, 1, 1, 1), (1, 0, 0, 0), (0, 0, 1, 0), (0, 1, 0, 1), (1, 0, 1, 1)]
+    toggles_all = [(0, 0, 0, 0), (1, 1, 1, 1), (1, 0, 0, 0), (0, 0, 2, 0), (0, 1, 0, 1), (1, 0, 2, 1), (0, 0, 1, 0)]
     n_seq = 40 if thorough else 10
     for i in range(n_seq):
         eps.append(gen_episode(ctx.rng, ctx.rng.choice([1, 2, 2, 3]) if not thorough else ctx.rng.choice([2, 3, 3, 4]),
                                STRATS[i % 5], toggles_all[i % len(toggles_all)]))
     for i in range(12 if thorough else 3):
         eps.append(gen_conc(ctx.rng, STRATS[(i + 2) % 5], toggles_all[(i + 1) % len(toggles_all)]))
+    for i, st in enumerate(STRATS if thorough else [STRATS[ctx.seed % 5]]):
+        eps += targeted(st)
     eps = C.load_corpus(ID) + eps
     # episodes are independent and mostly wait: run them in parallel slices, one process each
     k = 8
